@@ -77,6 +77,13 @@ def check_cases(report, work, vh, prelude, cases, predicates=None, family="eval"
             bump("parse_error")
         elif "cerr" in rec:
             bump("compile_error")
+        elif '"bytes"' in json.dumps([run["in"] for run in rec.get("runs", [])]):
+            bump("go_only_input")
+            report.count("out_of_model", len(rec["runs"]))
+            report.count("evaluations", len(rec["runs"]))
+            for run in rec["runs"]:
+                if run.get("panic"):
+                    report.violation("panic running %r: %s" % (rec["src"], run["panic"]), {"family": family, "case": {"src": rec["src"], "input": run["in"]}, "actual": run})
         else:
             good.append(rec)
     verdicts, stats = vc.validate_sharded(work, good, "ValidateEval.tla", "ValidateEval.cfg",
